@@ -390,7 +390,14 @@ class Node:
                             str(value_node.value).lower() == 'on')
                 return False
 
-            return bool(value_node.value == default)
+            if value_node.tag == 'tag:yaml.org,2002:str':
+                return bool(value_node.value == default)
+
+            # only the built-in scalar types above are supported, see the
+            # docstring; sequences and mappings compare their list of items
+            if not isinstance(value_node, yaml.ScalarNode):
+                return bool(value_node.value == default)
+            return False
 
         defaults = defaulted_attributes(cls)
 
